@@ -326,10 +326,11 @@ class Selector:
         return SelectorResult(self.expression_str, match_result, backtrace_info, [])
 
     def match(self, record):
-        if not self.matcher:
-            self.matcher = RecordContextMatcher(self.expression, self.expression_str)
+        # a matcher keeps the record it is looking at: one per call, so that a match which is started while another
+        # one is still running (another thread, a callback) cannot swap the record underneath it
+        self.matcher = matcher = RecordContextMatcher(self.expression, self.expression_str)
 
-        result = self.matcher.matches(record)
+        result = matcher.matches(record)
         return result
 
 
